@@ -332,6 +332,13 @@ def check_accept(pairs, node, ctxname, concrete_reparse=True):
                 out["c09"] = "(b) gen_arg_as_cxx() rendering %r of parameter denotes %r, expected %r" % (
                     tx, jsonable(norm_type(r4.type)), jsonable(rp["type"]))
                 return out
+            # the same parameter under a replacement name (how wrappers declare their local copies)
+            tn = p.gen_arg_as_cxx(name="SHnew", with_template_args=True)
+            r6 = refdecl.read_declaration(rendering_tokens(tn), sym)
+            if norm_type(r6.type) != rp["type"] or r6.name != "SHnew":
+                out["c09"] = "(b) gen_arg_as_cxx(name='SHnew') rendering %r of parameter denotes %r named %r, expected %r" % (
+                    tn, jsonable(norm_type(r6.type)), r6.name, jsonable(rp["type"]))
+                return out
             tm = p.template_arguments[0].typemap if p.template_arguments else p.typemap
             nested_native = all(q.typemap.c_type == q.typemap.cxx_type and not q.template_arguments
                                 for q in (p.params or []))
@@ -342,6 +349,12 @@ def check_accept(pairs, node, ctxname, concrete_reparse=True):
                 if norm_type(r5.type) != exp or r5.name != rp["name"]:
                     out["c09"] = "(b) gen_arg_as_c() rendering %r of parameter denotes %r, expected %r" % (
                         tc, jsonable(norm_type(r5.type)), jsonable(exp))
+                    return out
+                tcn = p.gen_arg_as_c(name="SHnew")
+                r7 = refdecl.read_declaration(rendering_tokens(tcn), sym)
+                if norm_type(r7.type) != exp or r7.name != "SHnew":
+                    out["c09"] = "(b) gen_arg_as_c(name='SHnew') rendering %r of parameter denotes %r named %r, expected %r" % (
+                        tcn, jsonable(norm_type(r7.type)), r7.name, jsonable(exp))
                     return out
     except refdecl.RefReject as rj:
         out["c09"] = "(b) a rendering of the accepted declaration is not a declaration: %s" % rj
